@@ -22,7 +22,8 @@ def gen_behaviour(r, kind, hang=2.0):
         code = r.choice([1, 2, 101, 255, 70, 69, 126, 127])   # 70 is also the launcher's own exec-failure code
         return {"sleep": dur, "exit": code}, "fail"
     if kind == "signal":
-        sg = r.choice([signal.SIGSEGV, signal.SIGABRT, signal.SIGKILL, signal.SIGTERM, signal.SIGUSR2])
+        sg = r.choice([signal.SIGSEGV, signal.SIGABRT, signal.SIGKILL, signal.SIGTERM, signal.SIGUSR2, signal.SIGUSR1,
+                       signal.SIGBUS, signal.SIGHUP, signal.SIGSYS, signal.SIGFPE, signal.SIGILL, signal.SIGPIPE])
         return {"sleep": dur, "signal": int(sg)}, "fail"
     if kind == "hang":
         if r.random() < 0.5:
@@ -456,6 +457,21 @@ def oracle_C02(sc, res):
     return None
 
 
+def misnamed_signal(res, test_name, signo):
+    import re
+    right = signal.Signals(signo).name   # e.g. SIGUSR1
+    for line in res["stderr"].splitlines():
+        if not line.rstrip().endswith(" " + test_name):
+            continue
+        m = re.match(r"\s*(?:TRY \d+ )?(SIG[A-Z0-9]+)\b", line)
+        if m and m.group(1) != right:
+            return f"the status line says {m.group(1)}: {line.strip()[:120]}"
+    for m in re.finditer(r"signal (\d+) \((SIG[A-Z0-9]+)\)", (res.get("junit") or "") + res["stderr"]):
+        if int(m.group(1)) == signo and m.group(2) != right:
+            return f"the report says 'signal {m.group(1)} ({m.group(2)})'"
+    return None
+
+
 def oracle_C03(sc, res):
     w = basic_failures(res)
     if w:
@@ -483,6 +499,12 @@ def oracle_C03(sc, res):
                 return f"{key} attempt {k + 1}: reported {got}, the process did {beh} (expected {want})"
             if want == "fail" and "signal" in beh and s["result"].get("signal") != beh["signal"]:
                 return f"{key} attempt {k + 1}: died of signal {beh['signal']}, reported signal {s['result'].get('signal')}"
+            if want == "fail" and "signal" in beh:
+                # where the report NAMES a signal (status words, JUnit message) the name is this platform's name
+                # of the signal that ended the process; a bare number is fine
+                w = misnamed_signal(res, t["name"], beh["signal"])
+                if w:
+                    return f"{key} attempt {k + 1}: died of signal {beh['signal']} ({signal.Signals(beh['signal']).name}); {w}"
             if want == "fail" and "signal" not in beh and s["result"].get("signal") is not None:
                 return f"{key} attempt {k + 1}: exited with a code but a signal {s['result'].get('signal')} is reported"
         last = sts[-1]["result"]["kind"]
@@ -807,6 +829,14 @@ def directed(prop):
                       expect=["fail"], mode="fail")]
         out.append(dict(tests=tests, retries=0, delay_ms=0, backoff="fixed", failfast="ff", threads=2, filter=None,
                         run_ignored="default", sigint_at=None, priorities=None, groups=None, grace_ms=3000))
+    if prop == "C03":
+        # death by signals whose numbers differ between platforms (10 / 12 are USR1 / USR2 on Linux, BUS / SYS on
+        # BSD): wherever the report names the signal, it is the right name
+        tests = [dict(bin="alpha::t1", name=f"t{i:02d}_s", ignored=False, attempts=[{"sleep": 0.0, "signal": int(sg)}],
+                      expect=["fail"], mode="signal")
+                 for i, sg in enumerate([signal.SIGUSR1, signal.SIGUSR2, signal.SIGBUS, signal.SIGSYS, signal.SIGHUP])]
+        out.append(dict(tests=tests, retries=0, delay_ms=0, backoff="fixed", failfast="noff", threads=2, filter=None,
+                        run_ignored="default", sigint_at=None, priorities=None, groups=None))
     if prop in ("C07", "C03"):
         # attempts that time out are failed attempts too: retried like any other (hang once, then pass; hang always)
         tests = [dict(bin="alpha::t1", name="t00_a", ignored=False,
